@@ -84,6 +84,8 @@ impl InsertionContext {
 
     /// Restores valid context state.
     pub fn restore(&mut self) {
+        // NOTE: remove empty routes first, otherwise solution state is calculated taking them into account
+        self.solution.remove_empty_routes();
         self.problem.goal.accept_solution_state(&mut self.solution);
         self.solution.remove_empty_routes();
     }
